@@ -30,7 +30,7 @@ import (
 // Every case is one call (or a short fixed call sequence) into an entry point with an input from
 // an exhaustively enumerated family.  Oracles: no panic escapes; the deterministic step count of
 // the steps-instrumented build stays below 20000 + 200*len^2 (a budget overrun is reported as a
-// hang); heap bytes allocated during the call stay below 2 MiB + 256*len.
+// hang); cumulative heap bytes allocated during the call stay below 2 MiB + 256*len + len^2/16.
 
 func init() {
 	register(&Prop{ID: "C08", Run: runC08, Procs: true, Replay: map[string]func(*mc.Ctx, json.RawMessage){
@@ -83,7 +83,11 @@ func c08Measure(w *mc.W, cas c08Case, inputLen int, f func()) {
 		w.Outcome(cas.Family + ": panic")
 		return
 	}
-	if lim := uint64(2<<20 + 256*n); a1-a0 > lim {
+	// The counter is CUMULATIVE bytes allocated, not peak memory: an algorithm that is allowed to be
+	// quadratic in time (base-58 conversion with math/big) may allocate quadratically many temporary
+	// bytes in total.  The envelope therefore has the same quadratic term as the time envelope; for
+	// the short inputs that carry inflated counts (a few hundred bytes) that term is negligible.
+	if lim := uint64(2<<20 + 256*n + n*n/16); a1-a0 > lim {
 		c.Violate("allocation-not-proportional-to-input/"+cas.Family, "call", cas, fmt.Sprintf("%d bytes allocated for an input of %d bytes (limit %d)", a1-a0, n, lim))
 		w.Outcome(cas.Family + ": over-allocation")
 		return
@@ -369,7 +373,7 @@ func runC08(c *mc.Ctx) {
 	cases, short := c08Cases(c)
 	c.Note("checksum_valid_strings_with_fewer_than_8_symbols", short)
 	c.Note("step_hook", hookStepReset != nil)
-	c.Rule("each entry point that interprets external data is called on exhaustively enumerated input families (all short strings over parser-relevant alphabets, checksum-valid degenerate CashAddr strings found by a GF(2) solve, every truncation / single-byte substitution / count-field replacement of honest transactions and blocks, filter-load geometries x items x transactions, merkle-block messages, serialized GCS filters with declared N up to 2^32, JSON documents of depth <= 3) under three oracles: no panic, deterministic step count of the steps-instrumented build below 20000+200*len^2, heap bytes allocated below 2 MiB + 256*len; non-trivial = inputs that pass the outer validation layer")
+	c.Rule("each entry point that interprets external data is called on exhaustively enumerated input families (all short strings over parser-relevant alphabets, checksum-valid degenerate CashAddr strings found by a GF(2) solve, every truncation / single-byte substitution / count-field replacement of honest transactions and blocks, filter-load geometries x items x transactions, merkle-block messages, serialized GCS filters with declared N up to 2^32, JSON documents of depth <= 3) under three oracles: no panic, deterministic step count of the steps-instrumented build below 20000+200*len^2, cumulative heap bytes allocated below 2 MiB + 256*len + len^2/16; non-trivial = inputs that pass the outer validation layer")
 	c.Assume("time and allocation inside dependencies (bchd/wire, bchd/txscript, math/big, OpenBazaar/jsonpb) are measured for allocation but not for steps (they are not instrumented)")
 	c.Assume("a step-budget overrun is reported as a hang; budgets are two orders of magnitude above the maximum measured on the unchanged tree")
 	if mc.IsShardWorker() || true {
@@ -496,6 +500,31 @@ func c08JSONDocs(depth int) []string {
 			}
 		}
 	}
+	// wide documents: arrays / objects with 256, 1024, 4096 elements of each atom kind
+	for _, wdt := range []int{256, 1024, 4096} {
+		for _, atom := range []string{`"ab"`, `"zz"`, `1`, `null`, `[]`, `{}`, `["ab"]`, `"` + strings.Repeat("0f", 32) + `"`} {
+			var sb strings.Builder
+			sb.WriteString(`{"x":[`)
+			for i := 0; i < wdt; i++ {
+				if i > 0 {
+					sb.WriteString(",")
+				}
+				sb.WriteString(atom)
+			}
+			sb.WriteString(`]}`)
+			docs = append(docs, sb.String())
+		}
+		var ob strings.Builder
+		ob.WriteString("{")
+		for i := 0; i < wdt; i++ {
+			if i > 0 {
+				ob.WriteString(",")
+			}
+			fmt.Fprintf(&ob, `"k%d":"ab"`, i)
+		}
+		ob.WriteString("}")
+		docs = append(docs, ob.String())
+	}
 	docs = append(docs, ``, `{`, `[`, `"`, `{"hash":`, hex.EncodeToString([]byte("x")), strings.Repeat("[", 200)+strings.Repeat("]", 200))
 	return docs
 }
@@ -604,6 +633,22 @@ func c08Cases(c *mc.Ctx) ([]c08Case, int) {
 		for L := 0; L <= 95; L++ {
 			add(c08Case{Family: "bech32", Input: mc.Hex([]byte(strings.Repeat("q", L)))}, c08Case{Family: "bech32", Input: mc.Hex([]byte("a1" + strings.Repeat("q", L)))},
 				c08Case{Family: "base58", Input: mc.Hex([]byte(strings.Repeat("1", L)))}, c08Case{Family: "base58", Input: mc.Hex([]byte(strings.Repeat("z", L)))})
+		}
+	}
+
+	// long inputs for every string parser (length ladder)
+	for _, L := range []int{255, 256, 257, 1000, 4096, 65536} {
+		for _, ch := range []string{"q", "1", "z", "a", ":", "Q"} {
+			sLong := strings.Repeat(ch, L)
+			for _, fam := range []string{"DecodeCashAddress", "DecodeWIF", "base58", "bech32", "NewKeyFromString"} {
+				if L > 4096 && (fam == "base58" || fam == "DecodeWIF" || fam == "NewKeyFromString") && ch != "1" {
+					continue // base-58 conversion of 65536 digits is quadratic big-integer work inside math/big (not counted, minutes of wall time)
+				}
+				add(c08Case{Family: fam, Input: mc.Hex([]byte(sLong))})
+			}
+			add(c08Case{Family: "DecodeAddress", Input: mc.Hex([]byte(sLong)), Net: "mainnet"})
+			add(c08Case{Family: "DecodeAddress", Input: mc.Hex([]byte("bitcoincash:" + sLong)), Net: "mainnet"})
+			add(c08Case{Family: "DecodeCashAddress", Input: mc.Hex([]byte("bitcoincash:" + sLong))})
 		}
 	}
 
